@@ -57,3 +57,9 @@ class Bisphere(CenteredScatterer):
                                            "".format(rotation))
         self.rotation = rotation
         super().__init__(center)
+        try:
+            if np.any(np.array([self.h, self.d]) < 0):
+                raise InvalidScatterer(self, "height or diameter is negative")
+        except (TypeError, ValueError):
+            # sizes given as priors are not checked, as for a Sphere
+            pass
